@@ -33,6 +33,9 @@ func coreC06(tier string) []RunSpec {
 			out = append(out, RunSpec{Profile: "core:" + c06Ops[oi], Params: map[string]int{"op": oi, "mut": mk}})
 		}
 	}
+	for k := 0; k < 6; k++ {
+		out = append(out, RunSpec{Profile: "core:backend-failure", Params: map[string]int{"bf": 1, "k": k}})
+	}
 	return out
 }
 
@@ -323,6 +326,92 @@ func mutate(T *Tape, valid map[string]any, kind int) mutant {
 	return m
 }
 
+// backendFailureStep: the Lightning backend fails inside a request (invoice creation, invoice lookup on
+// mint, invoice lookup during internal settlement). The request is answered with an error and must leave
+// everything as it was; the same request succeeds once the backend is back.
+func c06BackendFailure(rc *RunCtx, m *MW, snapshot func() string, i int) {
+	W := m.W
+	T := rc.T
+	kind := T.Choose("bf.kind", 3)
+	ks := W.ActiveKeyset("A")
+	a := NewActor(W, fmt.Sprintf("s%d.bf", i))
+	rc.Op(fmt.Sprintf("backend-failure kind=%d", kind))
+	var mq *MintQuote
+	var lq *MeltQuote
+	var ins []*HProof
+	var outs []*HOutput
+	ok := true
+	rc.Quietly(func() {
+		switch kind {
+		case 1:
+			mq, _ = a.ReqMintQuote("A", 9, false)
+			if mq == nil {
+				ok = false
+				return
+			}
+			W.LN.PayExternal(mq.Hash)
+			outs = W.NewOutputs(Split(9), ks.ID)
+		case 2:
+			mq, _ = a.ReqMintQuote("A", 7, false)
+			if mq == nil {
+				ok = false
+				return
+			}
+			lq, _ = a.ReqMeltQuote("A", mq.Request, 0)
+			if lq == nil {
+				ok = false
+				return
+			}
+			ins = m.TakeFor("A", lq.Amount+lq.Reserve)
+			if ins == nil {
+				ok = false
+			}
+		}
+	})
+	if !ok {
+		return
+	}
+	do := func() *Resp {
+		var r *Resp
+		rc.S.BeginEpisode()
+		rc.S.Run1(fmt.Sprintf("s%d.bfreq", i), W.Ext, func() {
+			switch kind {
+			case 0:
+				_, r = a.ReqMintQuote("A", 11, false)
+			case 1:
+				r = a.Post("A", "/v1/mint/bolt11", map[string]any{"quote": mq.ID, "outputs": outsJ(outs)})
+			case 2:
+				r = a.Melt("A", lq.ID, ins)
+			}
+		})
+		return r
+	}
+	before := snapshot()
+	W.LN.Cfg.InvoiceErrPct, W.LN.Cfg.AmbiguousPct = 100, 100
+	r := do()
+	W.LN.Cfg.InvoiceErrPct, W.LN.Cfg.AmbiguousPct = 0, 0
+	rc.S.Probe(fmt.Sprintf("c06_backend_failure_%d", kind))
+	if r == nil || r.OK() {
+		return
+	}
+	if after := snapshot(); after != before {
+		W.Book.Violate("C06.changed_state", fmt.Sprintf("backend-failure|%d", kind), "request refused because the Lightning backend failed (%v) changed state: %s", r, diffDump(before, after))
+	}
+	rc.Nontrivial = true
+	r2 := do()
+	if r2 == nil || !r2.OK() {
+		W.Book.Violate("C06.valid_rejected", fmt.Sprintf("backend-failure|%d", kind), "the same request still fails after the backend recovered: %v", r2)
+		return
+	}
+	switch kind {
+	case 1:
+		sigs, _ := r2.Body["signatures"].([]any)
+		m.User.Purse["A"] = append(m.User.Purse["A"], W.Unblind("A", outs, sigs)...)
+	case 2:
+		m.afterMelt("A", lq, ins, r2)
+	}
+}
+
 func runC06(rc *RunCtx) {
 	T := rc.T
 	fee := []uint{0, 100}[T.Choose("cfg.fee", 2)]
@@ -360,6 +449,10 @@ func runC06(rc *RunCtx) {
 		// some ordinary traffic in between so that mutants arrive at different states
 		if !hasOp && T.Chance("bg", 1, 2) {
 			m.Step(T.Pick("bg.kind", 1, 3, 2, 0, 1, 0, 0, 1, 1), false)
+		}
+		if (!hasOp && T.Chance("backendfail", 1, 5)) || rc.P("bf", 0) == 1 {
+			c06BackendFailure(rc, m, snapshot, i)
+			return
 		}
 		oi := T.Choose("op", len(c06Ops))
 		if hasOp {
